@@ -502,6 +502,15 @@ def corpus():
                                      A('i', add(V('i'), lit(1)))]),
                                Node('return', V('s'))])]),
                 [[N.fin(3)]], {}, 'partial_eval_stale_loop_fact'))
+    # C07-H: an `if True:` ending in a return is spliced into its block; the statements after it are left behind
+    out.append(('dce_unreachable_after_return',
+                Program([Func('main', ['a', 'xs'], None,
+                              [A('x', V('a')),
+                               Node('if1', Node('bool', True), [A('t', V('a')), Node('return', Node('ref', V('xs'), lit(1)))]),
+                               A('i', lit(0)),
+                               Node('while', Node('cmp', ['<'], [V('i'), lit(0)]), [A('i', add(V('i'), lit(1)))]),
+                               Node('return', V('x'))])]),
+                [[N.fin(1), [N.fin(5), N.fin(6)]]], {}, 'dce_unreachable_after_return'))
     # C07-F: the reaching-definitions analysis forgets the loop target after a `for`
     out.append(('for_target_escapes',
                 Program([Func('main', ['y', 'xs'], None,
@@ -616,6 +625,44 @@ def folded_loop_conditions(a, b):
     return bool(found)
 
 
+def code_after_return(body):
+    """Is there a block in which a statement that always returns once literal conditions are spliced (not a plain
+    `return`) is followed by another statement?"""
+    def lit_true(c):
+        return isinstance(c, Node) and c.k == 'bool' and c.a[0] is True
+
+    def ar(s):
+        if s.k == 'return':
+            return True
+        if s.k == 'with':
+            return any(ar(x) for x in s.a[2])
+        if s.k == 'if1':
+            return lit_true(s.a[0]) and any(ar(x) for x in s.a[1])
+        if s.k == 'if':
+            if lit_true(s.a[0]):
+                return any(ar(x) for x in s.a[1])
+            if isinstance(s.a[0], Node) and s.a[0].k == 'bool':
+                return any(ar(x) for x in s.a[2])
+            return any(ar(x) for x in s.a[1]) and any(ar(x) for x in s.a[2])
+        return False
+
+    def blocks(b):
+        yield b
+        for s in b:
+            if s.k in ('if1', 'while'):
+                yield from blocks(s.a[1])
+            elif s.k == 'if':
+                yield from blocks(s.a[1])
+                yield from blocks(s.a[2])
+            elif s.k in ('for', 'with'):
+                yield from blocks(s.a[2])
+    for b in blocks(body):
+        for i, s in enumerate(b[:-1]):
+            if s.k != 'return' and ar(s):
+                return True
+    return False
+
+
 def coq_codes(ck, cases, chunk, tag='steps'):
     """Evaluate C07Cases.step_code on every case in Coq.  -> (list of codes or None, error)"""
     import re
@@ -658,7 +705,7 @@ KEY_OF_BIT = {
 }
 
 
-def classify_step(pass_name, code, node_in, node_out):
+def classify_step(pass_name, code, node_in, node_out, exc=None):
     """The known-finding key a failing step belongs to, or None.  A step is attributed to a known defect only when
     the AS-CODED model reproduces the real output (or the pass raised), the repaired model's output is accepted by
     the verified validator, and repairing that single defect in the model is what changes the output."""
@@ -672,6 +719,13 @@ def classify_step(pass_name, code, node_in, node_out):
         if node_out is not None and folded_loop_conditions(node_in.body, node_out.body):
             return 'partial_eval_stale_loop_fact'
         return None
+    if node_out is None:
+        # the pass raised: attribute by the exception
+        if pass_name == 'PDce' and exc and exc.startswith('FPySyntaxError') and 'unbound variable' in exc \
+                and code_after_return(node_in.body):
+            return 'dce_unreachable_after_return'
+        if not (pass_name == 'PDce' and exc and exc.startswith('KeyError')):
+            return None
     as_coded = bool(code & 1) or node_out is None
     if not as_coded or (code & 8):
         return None
@@ -708,9 +762,9 @@ def run(ck):
 
     flagsets = all_flag_sets()
     import os
-    nprog = int(os.environ.get('C07_NPROG', 1200 if thorough else 40))
+    nprog = int(os.environ.get('C07_NPROG', 1500 if thorough else 150))
     nargs = 8 if thorough else 6
-    per_prog_flags = len(flagsets) if thorough else 5
+    per_prog_flags = len(flagsets) if thorough else 6
 
     cases, case_index = [], {}      # dedup by term text
     step_refs = []                  # (prog idx, flag key, step no, pass, case no, node_in, node_out, exc)
@@ -745,7 +799,7 @@ def run(ck):
             ck.count('original:' + got.split(' ')[0].strip('()'))
         for fl in fls:
             fk = flag_key(fl)
-            rec = {'idx': idx, 'name': name, 'prog': prog, 'flags': fl, 'known_key': known_key, 'steps': [],
+            rec = {'idx': idx, 'name': name, 'prog': prog, 'flags': fl, 'known_key': known_key, 'steps': [], 'fn': fn,
                    'simplify_error': None, 'mismatch': [], 'replay_differs': False}
             runs.append(rec)
             ck.count('flags:' + fk)
@@ -905,15 +959,33 @@ def run(ck):
                          base_replay)
         if not failures:
             continue
-        # attribute to the first step that is not validated
+        # attribute: the step that raised, else the first step whose output returns something else on the
+        # failing input (bisection over the replayed pipeline), else the first step that is not validated
         key = None
         blame = None
-        for st in rec['steps']:
-            if st.get('verdict') in ('matched-only', 'neither', 'raised'):
-                blame = st
-                break
+        raised = [st for st in rec['steps'] if st['exc'] is not None]
+        if rec['simplify_error'] and raised:
+            blame = raised[0]
+        elif rec['mismatch'] and rec.get('fn') is not None:
+            args, want, _ = rec['mismatch'][0]
+            for st in rec['steps']:
+                if st['ast_out'] is None:
+                    continue
+                try:
+                    g = rec['fn'].with_ast(st['ast_out'])
+                    got = call_result(lambda: g(*[py_of_arg(a) for a in args]))
+                except Exception:  # noqa: BLE001
+                    got = None
+                if got != want:
+                    blame = st
+                    break
+        if blame is None:
+            for st in rec['steps']:
+                if st.get('verdict') in ('matched-only', 'neither', 'raised'):
+                    blame = st
+                    break
         if blame is not None:
-            key = classify_step(blame['pass'], blame.get('code'), blame['in'], blame['out'])
+            key = classify_step(blame['pass'], blame.get('code'), blame['in'], blame['out'], blame['exc'])
         if rec.get('selfcopy_loop') and not rec['mismatch']:
             key = 'copyprop_noop_reported_as_change'
         if rec['known_key'] is not None and key != rec['known_key']:
@@ -921,6 +993,9 @@ def run(ck):
             key_for = None
         else:
             key_for = key
+        if os.environ.get('C07_DUMP'):
+            with open(ck.dir / 'failures.txt', 'a') as fh:
+                fh.write(f'==== {rec["name"]} flags={rec["flags"]} key={key_for} blame={None if blame is None else (blame["pass"], blame["sn"], blame.get("code"), blame["exc"])}\n{prog_src}\n' + '\n'.join(w for w, _ in failures[:3]) + '\n')
         for what, detail in failures[:3]:
             ck.violation('simplify changes what a program returns: ' + what.split(':')[0] +
                          (f' [{key_for}]' if key_for else ''),
